@@ -741,4 +741,155 @@ theorem g_lex_roundtrip (k : GKind) (v11 : Bool) (v : DT) (hs : GShape k v) (hv 
     rw [ed]
     exact mk_midnight 2000 1 d z (by decide) (by decide) hmb hdb
 
+
+theorem digitsVal2 (a b : Char) : EPV.CalLex.digitsVal [a, b] = (a.toNat - 48) * 10 + (b.toNat - 48) := by
+  unfold EPV.CalLex.digitsVal
+  rw [Nat.ofDigitChars_cons, Nat.ofDigitChars_cons, Nat.ofDigitChars_nil]
+  simp; omega
+
+theorem char_range (c : Char) (lo hi : Char) (h1 : lo ≤ c) (h2 : c ≤ hi) : lo.toNat ≤ c.toNat ∧ c.toNat ≤ hi.toNat :=
+  ⟨UInt32.le_iff_toNat_le.mp (Char.le_def.mp h1), UInt32.le_iff_toNat_le.mp (Char.le_def.mp h2)⟩
+
+theorem digit_range (c : Char) (h : c.isDigit = true) : 48 ≤ c.toNat ∧ c.toNat ≤ 57 := by
+  unfold Char.isDigit at h
+  simp only [Bool.and_eq_true, decide_eq_true_eq] at h
+  exact ⟨UInt32.le_iff_toNat_le.mp h.1, UInt32.le_iff_toNat_le.mp h.2⟩
+
+/-- the timezone group only yields offsets within ±14:00 -/
+theorem tzParse_range (s : Str) (z : Int) (h : EPV.CalLex.tzParse s = some z) : -840 ≤ z ∧ z ≤ 840 := by
+  unfold EPV.CalLex.tzParse at h
+  by_cases hm : EPV.CalLex.matchTz s = true
+  · rw [if_pos hm] at h
+    simp only [Option.some.injEq] at h
+    subst h
+    unfold EPV.CalLex.matchTz at hm
+    split at hm
+    · simp [EPV.CalLex.tzOfLex]
+    · rename_i sg a b c d e
+      simp only [Bool.and_eq_true, Bool.or_eq_true, beq_iff_eq, EPV.CalLex.isDigit, decide_eq_true_eq] at hm
+      obtain ⟨hsg, hrest⟩ := hm
+      have hab : EPV.CalLex.digitsVal [a, b] ≤ 14 ∧ (EPV.CalLex.digitsVal [a, b] = 14 → EPV.CalLex.digitsVal [d, e] = 0) ∧
+          EPV.CalLex.digitsVal [d, e] ≤ 59 := by
+        rw [digitsVal2, digitsVal2]
+        rcases hrest with h | h
+        · have hd := char_range d '0' '5' h.1.2.1 h.1.2.2
+          have he := digit_range e h.2
+          have h0 : ('0' : Char).toNat = 48 := by decide
+          have h5 : ('5' : Char).toNat = 53 := by decide
+          rcases h.1.1.1 with h' | h'
+          · have hb := digit_range b h'.2
+            rw [h'.1, h0] at *; omega
+          · have hb := char_range b '0' '3' h'.2.1 h'.2.2
+            have h1 : ('1' : Char).toNat = 49 := by decide
+            have h3 : ('3' : Char).toNat = 51 := by decide
+            rw [h'.1]; rw [h0, h3] at hb; rw [h0, h5] at hd; rw [h1]; omega
+        · rw [h.1.1.1.1, h.1.1.1.2, h.1.2, h.2]; decide
+      unfold EPV.CalLex.tzOfLex EPV.CalLex.intOfLex
+      rcases hsg with rfl | rfl <;> simp <;> omega
+    · cases hm
+  · rw [if_neg hm] at h; cases h
+
+
+theorem parseTzTail_ok (t : Str) (tz : Option Int) (h : parseTzTail t = some tz) : TzOk tz := by
+  unfold parseTzTail at h
+  split at h
+  · cases h; intro z hz; cases hz
+  · cases hp : EPV.CalLex.tzParse t with
+    | none => rw [hp] at h; cases h
+    | some z =>
+      rw [hp] at h; simp only [Option.map_some, Option.some.injEq] at h
+      subst h
+      intro z' hz'; cases hz'; exact tzParse_range t z hp
+
+theorem dateTimeOfLex_inv (v11 : Bool) (s : Str) (v : DT) (h : dateTimeOfLex v11 s = .ok v) :
+    ∃ y mo d hh mi sec us tz, TzOk tz ∧ mk y mo d hh mi sec us tz = .ok v := by
+  unfold dateTimeOfLex at h
+  split at h
+  · split at h
+    · split at h
+      · rename_i tz htz
+        split at h
+        · cases h
+        · cases hy : yearOfLex v11 _ _ with
+          | error e => rw [hy] at h; cases h
+          | ok y => rw [hy] at h; exact ⟨y, _, _, _, _, _, _, tz, parseTzTail_ok _ _ htz, h⟩
+      · cases h
+    · cases h
+  · cases h
+
+theorem dateOfLex_inv (v11 : Bool) (s : Str) (v : DT) (h : dateOfLex v11 s = .ok v) :
+    ∃ y mo d tz, TzOk tz ∧ mk y mo d 0 0 0 0 tz = .ok v := by
+  unfold dateOfLex at h
+  split at h
+  · split at h
+    · rename_i tz htz
+      cases hy : yearOfLex v11 _ _ with
+      | error e => rw [hy] at h; cases h
+      | ok y => rw [hy] at h; exact ⟨y, _, _, tz, parseTzTail_ok _ _ htz, h⟩
+    · cases h
+  · cases h
+
+/-- **canonicalisation is idempotent**: whatever literal `DateTime.fromstring` accepts, the string form of the value
+it returns is read back to that same value — `str` maps every accepted literal to a fixed point of
+`str ∘ fromstring`.  No hypothesis on the literal or the value. -/
+theorem dateTime_canonical_fixed_point (v11 : Bool) (s : Str) (v : DT) (h : dateTimeOfLex v11 s = .ok v) :
+    dateTimeOfLex v11 (fmtDateTime v11 v) = .ok v := by
+  obtain ⟨y, mo, d, hh, mi, sec, us, tz, htz, hmk⟩ := dateTimeOfLex_inv v11 s v h
+  have hv := mk_valid y mo d hh mi sec us tz v htz hmk
+  exact dateTime_lex_roundtrip v11 v hv.1 hv.2
+
+
+
+/-- a successful constructor call that is not the `24:00:00` form returns exactly the given fields -/
+theorem mk_no24_inv (y m d h mi s us : Int) (tz : Option Int) (w : DT)
+    (h24 : (h == 24 && mi == 0 && s == 0 && us == 0) = false) (hw : mk y m d h mi s us tz = .ok w) :
+    w = ⟨y, m, d, timeUs h mi s us, tz⟩ ∧ 0 ≤ timeUs h mi s us ∧ timeUs h mi s us < US := by
+  unfold mk at hw
+  simp only [h24, Bool.false_and, Bool.false_eq_true, ↓reduceIte] at hw
+  have inv := mkCore_ok_inv _ _ _ _ _ _ _ _ _ _ hw
+  have hf := pyFieldsOk_inv _ _ _ _ _ _ _ inv.2.2
+  rw [mkCore_ok y m d h mi s us tz inv.1 inv.2.1 ⟨hf.1, hf.2.1⟩ ⟨hf.2.2.1, hf.2.2.2.1⟩ ⟨hf.2.2.2.2.1, hf.2.2.2.2.2.1⟩
+    ⟨hf.2.2.2.2.2.2.1, hf.2.2.2.2.2.2.2.1⟩ ⟨hf.2.2.2.2.2.2.2.2.1, hf.2.2.2.2.2.2.2.2.2.1⟩
+    ⟨hf.2.2.2.2.2.2.2.2.2.2.1, hf.2.2.2.2.2.2.2.2.2.2.2⟩] at hw
+  simp only [Except.ok.injEq] at hw
+  refine ⟨hw.symm, ?_, ?_⟩
+  · unfold timeUs; omega
+  · unfold timeUs; simp only [US]; omega
+
+theorem date_canonical_fixed_point (v11 : Bool) (s : Str) (v : DT) (h : dateOfLex v11 s = .ok v) :
+    dateOfLex v11 (fmtDate v11 v) = .ok v := by
+  obtain ⟨y, mo, d, tz, htz, hmk⟩ := dateOfLex_inv v11 s v h
+  have hv := mk_valid y mo d 0 0 0 0 tz v htz hmk
+  have hu : v.us = 0 := by
+    have := (mk_no24_inv y mo d 0 0 0 0 tz v (by decide) hmk).1
+    rw [this]; rfl
+  exact date_lex_roundtrip v11 v hv.1 hu hv.2
+
+theorem timeMk_inv (h mi s us : Int) (tz : Option Int) (t : DT) (htz : TzOk tz) (hw : timeMk h mi s us tz = .ok t) : IsTime t := by
+  unfold timeMk at hw
+  simp only [] at hw
+  by_cases hc : (h == 24 && mi == 0 && s == 0 && us == 0) = true
+  · rw [if_pos hc] at hw
+    simp only [Bool.and_eq_true, beq_iff_eq] at hc
+    obtain ⟨⟨⟨_, rfl⟩, rfl⟩, rfl⟩ := hc
+    obtain ⟨e, h0, h1⟩ := mk_no24_inv 2000 1 1 0 0 0 0 tz t (by decide) hw
+    rw [e]; exact ⟨rfl, rfl, rfl, h0, h1, htz⟩
+  · have hc' : (h == 24 && mi == 0 && s == 0 && us == 0) = false := by simpa using hc
+    rw [if_neg hc] at hw
+    obtain ⟨e, h0, h1⟩ := mk_no24_inv 2000 1 1 h mi s us tz t hc' hw
+    rw [e]; exact ⟨rfl, rfl, rfl, h0, h1, htz⟩
+
+theorem time_canonical_fixed_point (s : Str) (t : DT) (h : timeOfLex s = .ok t) : timeOfLex (fmtTime t) = .ok t := by
+  have ht : IsTime t := by
+    unfold timeOfLex at h
+    split at h
+    · split at h
+      · rename_i tz htz
+        split at h
+        · cases h
+        · exact timeMk_inv _ _ _ _ tz t (parseTzTail_ok _ _ htz) h
+      · cases h
+    · cases h
+  exact time_lex_roundtrip t ht
+
 end EPV.Cal
